@@ -13,7 +13,8 @@ CLAIMS = {
             "as multisets) is invariant along every sequence of scheduler calls, hence exactly-once and 'not finished before all are completed'; "
             "whole system (load, runs without worker loss): in every reachable state of the composed transition system (controller, receiver threads, workers' two threads, channels; any interleaving) "
             "the indices of the agreed collection are - each exactly once - in the pool or in one worker's account (started by its main thread, announced, queued, on their way), hence no test is started twice or on two "
-            "workers, and once nothing is outstanding every test has been started exactly once (C01_sys_load_ledger, _started_at_most_once, _all_started_when_idle); "
+            "workers; and in every reachable state in which the session is finished, no worker was lost and no stop reason was set, the tests started by the workers' main threads are exactly the indices of the collection, each once, "
+            "with nothing left in the pool, a queue or on the wire - the run does not end before (C01_sys_load_ledger, _started_at_most_once, _end_accounts, _exactly_once_at_end); "
             "the scheduler models (all five load-balancing classes) are tied to the real classes by a per-run differential check. Partial: worksteal and the loadscope family at whole-system level, and the "
             "publication of the reports, are validated by the simulation monitors, not proved",
             "contract refinement + multiset ledger invariant; whole-system ledger invariant preserved by every step kind + induction over reachability (Lean 4) ; differential correspondence of the scheduler models; step-by-step replay of simulated runs by the Lean system model with the invariants (incl. the ledger) evaluated after every step"),
